@@ -1,5 +1,6 @@
 import RotondaModel.Model.MqttConn
 import RotondaModel.Model.ConnMetrics
+import RotondaModel.Generated.UnitMetrics
 /-!
 # UnitMetrics — the metric sources no other area renders (extends C15; Prometheus clause of C19)
 
@@ -360,6 +361,48 @@ def filterCalls (unit : Str) (g : GateRec) (ago : Str) (r : FilterRec) : List Ca
   gateCalls unit g ago ++
   r.routers.map (fun p => labelled mFiltered unit routerLabel (digits p.1) (digits p.2)) ++
   [ simple mFiltered unit (digits r.total) ]
+
+/-! ## every metric family of the library (extracted table `Generated/UnitMetrics.lean`) -/
+
+open Rotonda.Generated.UnitMetrics (Entry table tokioAppends)
+
+def ptypeOf (s : String) : Option PType :=
+  match s.toList with
+  | ['C', 'o', 'u', 'n', 't', 'e', 'r'] => some .counter
+  | ['G', 'a', 'u', 'g', 'e'] => some .gauge
+  | ['H', 'i', 's', 't', 'o', 'g', 'r', 'a', 'm'] => some .histogram
+  | ['S', 'u', 'm', 'm', 'a', 'r', 'y'] => some .summary
+  | ['T', 'e', 'x', 't'] => some .text
+  | _ => none
+
+def munitOf (s : String) : Option MUnit :=
+  match s.toList with
+  | ['S', 'e', 'c', 'o', 'n', 'd'] => some .second
+  | ['M', 'i', 'l', 'l', 'i', 's', 'e', 'c', 'o', 'n', 'd'] => some .millisecond
+  | ['M', 'i', 'c', 'r', 'o', 's', 'e', 'c', 'o', 'n', 'd'] => some .microsecond
+  | ['B', 'y', 't', 'e'] => some .byte
+  | ['T', 'o', 't', 'a', 'l'] => some .total
+  | ['S', 't', 'a', 't', 'e'] => some .state
+  | ['I', 'n', 'f', 'o'] => some .info
+  | _ => none
+
+def entryMetric (e : Entry) : Option Metric :=
+  match ptypeOf e.mtype, munitOf e.unit with
+  | some t, some u => some ⟨e.name, e.help, t, u⟩
+  | _, _ => none
+
+/-- Every `Metric::new` of the library as a `Metric` of the exposition model. -/
+def tableMetrics : List Metric := table.filterMap entryMetric
+
+/-- The constants `TokioTaskMetrics::append` names, in call order, as `Metric`s (looked up in the table by the name of
+    the constant, among the entries of `src/tokio.rs`). -/
+def tokioMetrics : List Metric :=
+  tokioAppends.filterMap (fun p =>
+    (table.find? (fun e => e.const.toList == p.1.toList && e.file.toList == "src/tokio.rs".toList)).bind entryMetric)
+
+/-- `impl metrics::Source for TokioTaskMetrics` while no task is instrumented (`instrument` has no caller): every
+    value is 0. -/
+def tokioCalls (unit : Str) : List Call := tokioMetrics.map (fun m => simple m unit ['0'])
 
 /-! ## the whole process: `metrics::Collection` -/
 
